@@ -3,6 +3,7 @@ from __future__ import annotations
 from typing import Sequence
 
 import jax
+import numpy as np
 from distreqx import distributions
 from jax import numpy as jnp
 from jaxtyping import Array, ArrayLike, Bool, Float, Integer, Key
@@ -117,7 +118,8 @@ class MultiCategorical(
                 f"Last dimension ({arr.shape[-1]}) must equal sum(action_dims) ({total})."
             )
 
-        split_idx = jnp.cumsum(jnp.asarray(action_dims[:-1]))
+        # Static (NumPy) split points so that the distribution can be built under jit.
+        split_idx = np.cumsum(np.asarray(action_dims[:-1], dtype=int))
         pieces = tuple(jnp.split(arr, split_idx, axis=-1))
         return pieces, action_dims
 
